@@ -10,7 +10,7 @@
 //   IF toks | IFDEF N | IFNDEF N | ELIF toks | ELSE | ENDIF
 //   T toks                        a text line
 //   end                           preprocess the unit collected so far; observation:
-//        out=<line> ; <line> ; ... err=<pp.errors> st=<statusStack.size()-1>
+//        out=<line> <NL> <line> <NL> ... err=<pp.errors> st=<statusStack.size()-1>
 //   endref                        (driver only: reference semantics) -> harness prints the cpp result
 // every other op answers "ok".
 #include <csignal>
@@ -159,7 +159,7 @@ static bool runOcca(const std::string &src, std::vector<std::string> &lines, int
 
 static std::string showLines(const std::vector<std::string> &l) {
   std::string s;
-  for (size_t i = 0; i < l.size(); ++i) { if (i) s += " ; "; s += l[i]; }
+  for (size_t i = 0; i < l.size(); ++i) { if (i) s += " <NL> "; s += l[i]; }
   return s.empty() ? "-" : s;
 }
 
@@ -198,7 +198,7 @@ int main() {
         if (!expectHash.empty() && expectHash == fnv1a(src)) {
           cppOk = (expectStatus == "ok");
           std::string cur; std::istringstream es(expectOut); std::string w;
-          while (es >> w) { if (w == ";") { if (!cur.empty()) cl.push_back(cur); cur.clear(); } else { if (!cur.empty()) cur += " "; cur += w; } }
+          while (es >> w) { if (w == "<NL>") { if (!cur.empty()) cl.push_back(cur); cur.clear(); } else { if (!cur.empty()) cur += " "; cur += w; } }
           if (!cur.empty() && cur != "-") cl.push_back(cur);
         } else {
           cppOk = runCpp(src, cl, diag);
